@@ -75,6 +75,48 @@ CHECKS["C20"] = dict(
     technique="Lean 4 theorems in the standard rounding model over regenerated kernels + bitwise translation validation",
 )
 
+TRUST_H = ("Trusted: Lean kernel; axioms propext/Classical.choice/Quot.sound; the hand-written model (Model/*.lean) is tied to the code only by "
+           "the correspondence run (same recorded callbacks, exact rationals) — code paths the generators do not reach are not covered; "
+           "tracker kernels inside the model are regenerated from source; driver JSON glue; harness.q.Q.")
+CHECKS["C01"] = dict(
+    category="proof",
+    text=("Lean theorem sage_efficiency: for every stream prefix, every model/loss/imputer behaviour (imputer faithful on the empty "
+          "subset, proved for the library imputers in C06), every d>=1, n, every sequence of feature orders (permutations of the names), "
+          "static mode and dynamic mode with ANY alpha, the importance values of the IncrementalSage model sum to marginal loss minus "
+          "model loss = explained loss (both loss directions). The model is tied to incremental.py/base.py/multi_value.py by exact-"
+          "arithmetic correspondence over the explainer configuration space; the identity is also evaluated on the real object."),
+    design_ref="DESIGN.md section 6, C01", note=TRUST_H + " 'to within rounding' for floats is not a theorem (see C20).",
+    technique="Lean 4 theorem (invariant by induction, joint linearity of trackers) over hand model + differential correspondence",
+)
+CHECKS["C02"] = dict(
+    category="proof",
+    text=("Lean theorems pfi_refines_spec / pfi_static_mean / pfi_dynamic / variance forms / pfi_first_only_seeds / "
+          "pfi_ignored_feature_zero: for every stream and callbacks the importance and variance trackers of every feature are the base "
+          "statistic (mean, or smoothing with alpha from zero) of mean-imputed-loss minus original loss, resp. of the squared deviation "
+          "from the updated estimate. Tied to pfi.py by exact-arithmetic correspondence; real outputs compared with the Lean spec."),
+    design_ref="DESIGN.md section 6, C02", note=TRUST_H,
+    technique="Lean 4 refinement theorems over hand model + differential correspondence",
+)
+CHECKS["C03"] = dict(
+    category="proof",
+    text=("Lean theorems sage_refines_spec, sage_chain_closed_form, imputer_gets_complement, sage_reported_losses, ...: per observation "
+          "the credited contribution is loss before minus loss after revealing the feature, the imputer receives exactly the features "
+          "not yet revealed, the chain starts at the loss of the normalised running mean prediction, and all five trackers are the "
+          "configured running statistics of these quantities (scalar and growing multi-label outputs). Tied to incremental.py by "
+          "exact-arithmetic correspondence; real outputs (incl. subsets handed to the imputer) compared with the Lean spec."),
+    design_ref="DESIGN.md section 6, C03", note=TRUST_H,
+    technique="Lean 4 refinement theorems over hand model + differential correspondence",
+)
+CHECKS["C12"] = dict(
+    category="proof",
+    text=("20 Lean theorems about the MultiValueTracker model for every update-dict history and both base kinds: per-key tracker = fold of "
+          "the base update over the zero-filled series since first appearance (closed forms via C10), keys never dropped (prefix), no "
+          "duplicate keys, N = number of updates, normalised view (single key raw, zero sum all zeros, otherwise sums to one and "
+          "preserves ratios). Tied to multi_value.py by exact-arithmetic correspondence; numeric-type sweep for the NaN clause."),
+    design_ref="DESIGN.md section 6, C12", note=TRUST_H + " 'rather than NaN' is decided by the type sweep on the real class (a field has no NaN).",
+    technique="Lean 4 theorems over hand model + differential correspondence + numeric-type sweep",
+)
+
 NOT_YET = {
 }
 
@@ -103,7 +145,7 @@ def main():
                        "reason": NOT_YET.get(pid, "check not built yet in this round (model and theorems in progress; see DESIGN.md section 12)")})
     man = {
         "version": 1,
-        "setup_cmd": "/venv/bin/python tools/py2lean.py && cd lean && lake build",
+        "setup_cmd": "/venv/bin/python tools/py2lean.py && /venv/bin/python tools/gen_audits.py && cd lean && lake build IxaiVerif IxaiVerif.AuditAll",
         "hooks": {
             "guard": "IXAI_VERIF",
             "enable": "no hooks are needed: checks import /repo's working tree directly (PYTHONPATH) and control random/np.random from outside",
